@@ -1847,7 +1847,8 @@ class Symex:
             return any(self.truth(v) for v in vals) if name == "any" else all(self.truth(v) for v in vals)
         if name in ("len",) and len(args) == 1 and isinstance(args[0], (T, Obj)):
             return T("call", "len", (args[0].term if isinstance(args[0], Obj) else args[0],), ())
-        if name in ("chain.from_iterable", "from_iterable") and len(args) == 1 and not isinstance(args[0], T):
+        if name in ("chain.from_iterable", "from_iterable", "itertools.chain.from_iterable") and len(args) == 1 \
+                and not isinstance(args[0], T):
             out = []
             for x in self.iterate(args[0], node):
                 out.extend(self.iterate(x, node))
